@@ -20,12 +20,14 @@ def main():
             {"harness": "c04", "cfg": {"P": "1", "C": "2"}, "label": "1 proxy x 2 clients: " + U, "budget_s": 30},
             {"harness": "c04", "cfg": {"P": "2", "C": "1"}, "label": "2 proxies x 1 client: " + U, "budget_s": 30},
             {"harness": "c04", "cfg": {"P": "2", "C": "2", "beh": "4"}, "label": "2 proxies x 2 clients (4 answer behaviours): " + U, "budget_s": 40},
+            {"harness": "c04", "cfg": {"P": "1", "C": "2", "fp": "2", "beh": "2"}, "label": "1 proxy x 2 clients, the first optionally naming a bridge that is not listed: " + U, "budget_s": 20},
+            {"harness": "c04", "cfg": {"P": "2", "C": "1", "fp": "2", "beh": "2"}, "label": "2 proxies x 1 client optionally naming a bridge that is not listed: " + U, "budget_s": 20},
             {"harness": "c04", "cfg": {"P": "1", "C": "1", "nats": "4"}, "label": "1 proxy reporting NAT {unrestricted, restricted, unknown, none} x 1 client reporting {unknown, unrestricted, restricted}: " + U, "budget_s": 20},
             {"harness": "c04", "cfg": {"P": "1", "C": "2", "nats": "4", "beh": "2"}, "label": "the same with 2 clients: " + U, "budget_s": 30},
             {"harness": "c04", "cfg": {"P": "2", "C": "1", "dup": "1"}, "label": "2 proxy polls, optionally under one session id and in different NAT pools, x 1 client: " + U, "budget_s": 30},
             {"harness": "c04", "cfg": {"P": "2", "C": "2", "beh": "2", "dup": "1"}, "label": "2 proxy polls (optionally one session id) x 2 clients: " + U, "budget_s": 30},
         ]
-        total = 200
+        total = 240
     else:
         passes = [
             {"harness": "c04", "cfg": {"P": "1", "C": "1"}, "label": "1 proxy x 1 client: " + U},
@@ -33,13 +35,14 @@ def main():
             {"harness": "c04", "cfg": {"P": "2", "C": "1"}, "label": "2 proxies x 1 client: " + U, "budget_s": 100},
             {"harness": "c04", "cfg": {"P": "2", "C": "2"}, "label": "2 proxies x 2 clients: " + U, "budget_s": 500},
             {"harness": "c04", "cfg": {"P": "2", "C": "2", "dup": "1"}, "label": "2 proxy polls (optionally one session id, different NAT pools) x 2 clients: " + U, "budget_s": 400},
+            {"harness": "c04", "cfg": {"P": "2", "C": "2", "fp": "2"}, "label": "2 proxies x 2 clients, the first optionally naming a bridge that is not listed: " + U, "budget_s": 300},
             {"harness": "c04", "cfg": {"P": "1", "C": "2", "nats": "4"}, "label": "1 proxy reporting NAT {unrestricted, restricted, unknown, none} x 2 clients reporting {unknown, unrestricted, restricted}: " + U, "budget_s": 200},
             {"harness": "c04", "cfg": {"P": "2", "C": "2", "nats": "4", "beh": "2"}, "label": "2 proxies (the first of any NAT kind) x 2 clients of any NAT kind: " + U, "budget_s": 300},
             {"harness": "c04", "cfg": {"P": "3", "C": "2", "beh": "2"}, "label": "3 proxies x 2 clients (2 answer behaviours): " + U, "budget_s": 400},
             {"harness": "c04", "cfg": {"P": "2", "C": "3", "beh": "2"}, "label": "2 proxies x 3 clients (2 answer behaviours): " + U, "budget_s": 400},
             {"harness": "c04", "cfg": {"P": "1", "C": "1"}, "bound": 2, "label": "1 proxy x 1 client, pb<=2 without reduction (cross-check of the reduction)", "budget_s": 60},
         ]
-        total = 2600
+        total = 2900
     summary, tot, samples, exh = sched.run_passes(rep, binary, passes, total)
     sched.sched_coverage(rep, summary, tot, samples, exh)
     rep.assumptions += [
